@@ -19,7 +19,7 @@ RULE = ('keys: stage(8) method_name(2) span(3) snapshot(3) log_msg(2) condition(
         'tracepoints over {A@L1, B@L1, C@L2, uninterpretable}; non-trivial = the combination asks for at least one effect and at '
         'least one hit is rejected or at least one effect kind is absent')
 ASSUMPTIONS = ['unknown span values, nameless method tracepoints, unknown frame_type and stack_type semantics are don\'t-cares (outside the statement)',
-               'capture stages are only required to produce their effects by the end of the run']
+               'capture stages: log, metrics and span act at the hit, the snapshot is delivered when the method returns / at the next line of the function, a method capture with the captured `return`']
 
 PROGRAM = '''
 def M(v):
@@ -90,7 +90,7 @@ def cases(tier, seed):
         for vs in itertools.product(*[range(len(KEYS[k])) for k in prefix_keys]):
             for route in ('response', 'register'):
                 out.append({'k': 'chunk', 'p': list(vs), 'route': route})
-    kinds = ['A', 'B', 'C', 'U']
+    kinds = ['A', 'B', 'C', 'U', 'V']       # U: unknown stage; V: a metric whose type is a number this client does not know (open enum)
     for n in (1, 2, 3):
         for lst in itertools.product(kinds, repeat=n):
             out.append({'k': 'list', 'l': list(lst)})
@@ -228,11 +228,20 @@ def check_one(ctx, d, route, case):
                       f'[{label}] {run.escaped[:1] or run.exc!r}', case)
         return
     want_ev = ('line', L1, True) if ref['kind'] == 'line' else ('call', 'M', True)
-    exp = []
+    # capture stages: everything but the snapshot happens at the hit; the snapshot is delivered when the method returns / the line
+    # has completed (the next line event of the function), carrying the captured result
+    capture = d['stage'] in ('method_capture', 'line_capture') and ref['snapshot']
+    done_ev = ('return', 'M', True) if d['stage'] == 'method_capture' else ('line', L1 + 1, True)
+    exp, exp_ev = [], []
     for h in ref['hits']:
         if h:
-            exp.append({'snap': 1 if ref['snapshot'] else 0, 'log': 1 if ref['log'] else 0, 'metric': ref['metrics'], 'span': 1 if ref['span'] else 0})
-    exp = [e for e in exp if any(e.values())]
+            at_hit = {'snap': 0 if capture else (1 if ref['snapshot'] else 0), 'log': 1 if ref['log'] else 0, 'metric': ref['metrics'], 'span': 1 if ref['span'] else 0}
+            if any(at_hit.values()):
+                exp.append(at_hit)
+                exp_ev.append(want_ev)
+            if capture:
+                exp.append({'snap': 1, 'log': 0, 'metric': 0, 'span': 0})
+                exp_ev.append(done_ev)
     obs = [{k: p[k] for k in ('snap', 'log', 'metric', 'span')} for p in per]
     if any(ref['hits']) and (not all(ref['hits']) or not all(v for v in (ref['snapshot'], ref['log'], ref['metrics'], ref['span']))):
         ctx.nt((route, label))
@@ -243,11 +252,15 @@ def check_one(ctx, d, route, case):
         feat = {'hits': 'hit-count', 'snap': 'snapshot', 'log': 'log', 'metric': 'metric', 'span': 'span'}[facet]
         ctx.violation(f'C11/effects/{feat}/{route}', f'[{label}] via {route}: effects per hit {obs}, action table {exp}', case)
         return
-    for p in per:
-        if p['ev'] != want_ev:
-            ctx.violation(f'C11/location-kind/{ref["kind"]}/{route}', f'[{label}] expected to act on {want_ev}, acted on {p["ev"]}', case)
+    for p, wev in zip(per, exp_ev):
+        if p['ev'] != wev:
+            ctx.violation(f'C11/location-kind/{ref["kind"]}/{route}', f'[{label}] expected to act on {wev}, acted on {p["ev"]}', case)
             return
         for s in p['snaps']:
+            caps = [w.expression for w in s.watches if w.source == 'CAPTURE']
+            if caps != (['return'] if d['stage'] == 'method_capture' else []) and d['stage'] != 'line_capture':
+                ctx.violation(f'C11/capture-result/{route}', f'[{label}] snapshot carries captured results {caps}', case)
+                return
             ws = [w for w in s.watches if w.source == 'WATCH']
             if len(ws) != ref['watches']:
                 ctx.violation(f'C11/watches/{route}', f'[{label}] snapshot has {len(ws)} watch results, want {ref["watches"]}', case)
@@ -285,14 +298,19 @@ def check_list(ctx, desc):
             line = L2
         if kind == 'U':
             args['stage'] = 'bogus'
-        pbs.append(PB(ID='tp%d' % n, path='c11prog.py', line_number=line, args=args, watches=['v + %d' % n]))
+        pb = PB(ID='tp%d' % n, path='c11prog.py', line_number=line, args=args, watches=['v + %d' % n])
+        if kind == 'V':
+            from deepproto.proto.tracepoint.v1.tracepoint_pb2 import Metric
+            pb.metrics.append(Metric(name='m', type=17))
+            pb = PB.FromString(pb.SerializeToString())      # as it arrives: the unknown number survives the wire
+        pbs.append(pb)
     agent = rig.Agent()
     ctx.case()
     try:
         agent.install(convert_response(pbs))
     except BaseException as e:
-        if 'U' in lst:
-            ctx.violation('C11/uninterpretable-drops-response', f'response {lst}: convert_response raised {e!r}; the other tracepoints are lost', desc)
+        if 'U' in lst or 'V' in lst:
+            ctx.violation('C11/uninterpretable-drops-response' + ('/unknown-metric-type' if 'V' in lst else ''), f'response {lst}: convert_response raised {e!r}; the other tracepoints are lost', desc)
         else:
             ctx.violation('C11/response-raised/' + type(e).__name__, f'response {lst}: {e!r}', desc)
         return
@@ -304,17 +322,17 @@ def check_list(ctx, desc):
                  for p in per for s in p['snaps'])
     exp = []
     for n, kind in enumerate(lst):
-        if kind == 'U':
+        if kind in 'UV':
             continue
         nh = 1 if kind == 'B' else 2
         exp += [('tp%d' % n, ('v + %d' % n,), '[deep] L%d' % n)] * nh
     exp.sort()
-    if len(set(lst) - {'U'}) >= 1 and len(lst) >= 2:
+    if len(set(lst) - {'U', 'V'}) >= 1 and len(lst) >= 2:
         ctx.nt(('list', tuple(lst)))
     ctx.outcome(('list', len(got)))
     if got != exp:
         same = len([k for k in lst if k in 'AB']) >= 2
-        ctx.violation(f'C11/list-effects/{"same-location" if same else "distinct"}{"/with-uninterpretable" if "U" in lst else ""}',
+        ctx.violation(f'C11/list-effects/{"same-location" if same else "distinct"}{"/with-uninterpretable" if ("U" in lst or "V" in lst) else ""}',
                       f'response {lst}: snapshots {got}, expected {exp}', desc)
     elif len(ctx.samples) < 2 and len(lst) == 3:
         ctx.sample({'response_list': lst, 'snapshots': [list(map(str, g)) for g in got]})
